@@ -7,39 +7,40 @@ multi-start paths, and the zoo policies (random weights, eval mode) on tiny inst
 Oracle (never the decoding code itself): `replay` re-runs an action sequence with an OWN loop: encoder -> decoder logits ->
 own tanh-clip / mask (env `action_mask`) / temperature / top-k / log-softmax -> log-prob + entropy of the given action ->
 env.step. Multi-start / beam rows are replayed as independent flat instances (own row expansion, decoder num_starts=0), so
-the (s b) layouts, batchify/unbatchify and beam back-tracking are not trusted.  PolyNet (strategy = sample index) is
+the (s b) layouts, batchify/unbatchify and beam back-tracking are not trusted. PolyNet (strategy = sample index) is
 replayed through its decoder with num_starts=K; PointerNetwork and MDAM have own replays of their step networks.
 
-Clauses (name = "<Cxx>.<policy.env>.<suffix>"):
- C11 gen.feasible-complete        every returned action is allowed by env.action_mask at its step, all rows done at the end
- C11 gen.ll-equals-step-logp      returned log_likelihood == sum_t oracle logp(a_t); forced multistart first move counts 0
-                                  (both store_all_logp paths: return_entropy False/True; per-step when not summed)
- C11 gen.greedy-is-argmax         greedy picks the oracle argmax (unless top-2 gap < 1e-4)
- C11 gen.entropy                  returned entropy == sum_t oracle step entropy
+Clauses (name = "<Cxx>.<policy.env>.<suffix>"; "*.raises*" = the library raised on a valid input):
+ C11 gen.feasible-complete     every returned action is allowed by env.action_mask at its step, all rows done at the end,
+                               no superfluous step
+ C11 gen.ll-equals-step-logp   returned log_likelihood == sum_t oracle logp(a_t); forced multistart first move counts 0
+                               (both store_all_logp paths: return_entropy False -> summed, True -> per step)
+ C11 gen.greedy-is-argmax      greedy picks the oracle argmax (unless top-2 gap < 1e-4)
+ C11 gen.entropy / gen.reward  returned entropy == sum_t oracle step entropy; reward == env reward of the returned actions
  C11 eval.steps / eval.first-move-forced / eval.reward / eval.entropy
-                                  policy(td, env, actions=returned) reproduces per-step logp, reward, entropy
- C11 get_log_likelihood.mask      steps flagged irrelevant (mask False) contribute exactly 0 (unit + td["mask"] on TSP)
- C13 beam.feasible-complete / beam.ll-equals-sequence-logp / beam.distinct / beam.topk-matches-oracle (own beam search,
-     b-major layout, history re-indexed every step, skipped on score ties < 1e-4) / beam.select-best-is-max /
-     beam.eval.steps / beam.eval.first-move-forced
- C14 greedy.actions / greedy.reward / greedy.ll / greedy.raises   instance decoded solo (batch 1), at another position
-     (reversed batch), in a sub-sampled batch and in a batch with duplicates == decoded in the full batch
-     (actions exact up to the solo episode length, a differing action only accepted if the oracle top-2 gap < 1e-4)
-
+                               policy(td, env, actions=returned) reproduces per-step logp, reward, entropy
+ C11 get_log_likelihood.mask   steps flagged irrelevant (mask False) contribute exactly 0 (unit + td["mask"] on TSP)
+ C13 beam.feasible-complete / beam.ll-equals-sequence-logp / beam.reward / beam.distinct (when forced first moves are) /
+     beam.topk-matches-oracle (own beam search, b-major layout, history re-indexed every step; skipped on score ties
+     < 1e-4) / beam.select-best-is-max / beam.eval.steps / beam.eval.first-move-forced
+ C14 <decode>.actions / .reward / .ll / .raises[-batch-size-1]   instance decoded solo (batch 1), at another position
+     (reversed batch), in a sub-sampled batch and in a batch with duplicates == decoded in the full batch (actions exact
+     up to the shorter episode, a differing action only accepted if the oracle top-2 gap there is < 1e-4; floats 1e-4)
 Bound: see `BOUND` (built from the tier tables below).
 """
+import logging
 import os
+import signal
 import sys
 import warnings
-import logging
 
 sys.path.insert(0, os.path.dirname(os.path.abspath(__file__)))
-import _lib
+import _lib  # noqa: E402
 
 _lib.setup_path()
 warnings.filterwarnings("ignore")
-import torch
-from torch import nn
+import torch  # noqa: E402
+from torch import nn  # noqa: E402
 
 logging.disable(logging.WARNING)
 from rl4co.envs import get_env  # noqa: E402
@@ -50,97 +51,99 @@ from rl4co.models.zoo.l2d import L2DAttnPolicy, L2DPolicy, L2DPolicy4PPO  # noqa
 from rl4co.models.zoo.polynet.policy import PolyNetPolicy  # noqa: E402
 from rl4co.utils.decoding import get_log_likelihood  # noqa: E402
 
-KNOWN = {
-    "C11.multistart.eval.first-move-forced": "any multistart_* output re-evaluated with policy(batchify(td, S), env, actions=a): step 0 gets the policy's log-prob instead of the forced 0",
-    "C11.am.mtsp.gen.raises.multistart": "AttentionModelPolicy(mtsp), multistart_*: MTSPContext._distance_from_depot gathers on dim 1 of the [B,S,N,2] multi-start view -> IndexError",
+KNOWN = {  # confirmed defects of the unchanged library (clause name -> failing input/config)
+    "C11.multistart.eval.first-move-forced": "any multistart_* output re-evaluated with policy(batchify(td, S), env, actions=a): step 0 gets the policy's log-prob instead of the forced 0, so log_likelihood differs",
+    "C13.beam.eval.first-move-forced": "any beam_search output re-evaluated with policy(batchify(td, W), env, actions=a): forced first move gets the policy's log-prob instead of 0",
+    "C11.am.mtsp.gen.raises.multistart": "AttentionModelPolicy(mtsp), multistart_*: MTSPContext._distance_from_depot gathers on dim 1 of the [B,S,N,2] multi-start view -> index out of bounds",
     "C14.am.mtsp.multistart_greedy.raises": "same MTSPContext multi-start gather failure, reached from the per-instance check",
     "C14.am.mtsp.greedy.raises-batch-size-1": "AttentionModelPolicy(mtsp) on a batch of ONE instance: MTSPContext._cur_node_embedding .squeeze() drops the batch dim -> cat error",
     "C14.am.mtsp.greedy.reward": "MTSPEnv (minmax): padding depot steps after an instance is done change its reward, so the reward depends on the batch's longest episode",
-    "C14.am.mdcpdp.greedy.reward": "MDCPDPEnv batched step adds row 0's leg length to every row: reward of an instance differs solo vs in a batch",
+    "C14.am.mdcpdp.greedy.reward": "MDCPDPEnv batched step adds row 0's leg length to every row: the reward of an instance differs solo vs in a batch",
     "C11.mdam.tsp.gen.ll-unnormalised-logits": "MDAMPolicy: log_likelihood is the sum of masked/clipped LOGITS (no log-softmax), e.g. positive values",
     "C11.mdam.cvrp.gen.ll-unnormalised-logits": "MDAMPolicy(cvrp): same, log_likelihood is a sum of unnormalised logits",
     "C14.mdam.cvrp.greedy.ll": "MDAMPolicy(cvrp): padding steps after an instance is done add their (unnormalised) depot logit, so log_likelihood depends on the batch's longest episode",
-    "C14.am.sdvrp.batch-size-1.checker-rejects-depotless-tour": "SDVRPEnv.check_solution_validity needs a depot visit to zero its -capacity entry: a complete single-trip tour 1,2,3,4 decoded alone raises 'All demand must be satisfied' (in a batch, padding depot steps hide it); the sdvrp pair therefore runs with check_solution=False + own feasibility oracle",
-    "C14.matnet.atsp.random-onehot-init.greedy.actions": "MatNetPolicy default init draws a fresh random one-hot column embedding per call/batch row even in eval mode",
+    "C14.am.sdvrp.batch-size-1.checker-rejects-depotless-tour": "SDVRPEnv.check_solution_validity needs a depot visit to zero its -capacity entry: the complete single-trip tour 1,2,3,4 evaluated alone raises 'All demand must be satisfied' (in a batch, padding depot steps hide it); the sdvrp pair therefore runs with check_solution=False + the own feasibility oracle",
+    "C14.matnet.atsp.random-onehot-init.greedy.actions": "MatNetPolicy's default init embedding draws a fresh random one-hot column embedding per call/batch row even in eval mode",
     "C14.matnet.atsp.random-onehot-init.greedy.ll": "same (MatNet RandomOneHot init embedding)",
     "C14.matnet.atsp.random-onehot-init.greedy.reward": "same (MatNet RandomOneHot init embedding)",
-    "C14.matnet.ffsp.policy-raises": "MatNetPolicy(env_name='ffsp') cannot be constructed: MatNetFFSPDecoder passes out_bias to AttentionModelDecoder",
-    "C14.l2dattn.jssp.policy-raises": "L2DAttnPolicy forward: decoder receives the (cache,) tuple -> AttributeError",
-    "C13.beam.eval.first-move-forced": "any beam_search output re-evaluated with policy(batchify(td, W), env, actions=a): forced first move gets the policy's log-prob instead of 0",
+    "C14.matnet.ffsp.policy-raises": "MatNetPolicy(env_name='ffsp') cannot be constructed: MatNetFFSPDecoder passes out_bias to AttentionModelDecoder.__init__",
+    "C14.l2dattn.jssp.policy-raises": "L2DAttnPolicy forward: the decoder receives the (cache,) tuple from its pre_decoder_hook -> AttributeError",
 }
 TOL, TIE = 1e-4, 1e-4
 A = _lib.args()
 torch.set_num_threads(2)
 QUICK = A.tier != "thorough"
-SIZES = [5, 7]
-SEEDS = [0] if QUICK else [0, 1, 2]
-B = 3 if QUICK else 4
+SIZES, SEEDS, B = [5, 7], ([0] if QUICK else [0, 1, 2]), (3 if QUICK else 4)
 SM = dict(embed_dim=16, num_heads=2, num_encoder_layers=1)
 
 
 class DetOneHot(nn.Module):
     """Deterministic per-instance replacement for MatNet's RandomOneHot init embedding (col j -> e_j)."""
 
-    def __init__(self, d):
-        super().__init__()
-        self.d = d
-
     def forward(self, td):
         m = td["cost_matrix"]
         b, r, c = m.shape
-        return torch.zeros(b, r, self.d), torch.eye(c, self.d)[None].repeat(b, 1, 1), m
+        return torch.zeros(b, r, 16), torch.eye(c, 16)[None].repeat(b, 1, 1), m
 
 
 def _matnet(det=True):
-    p = MatNetPolicy(env_name="atsp", embed_dim=16, num_heads=2, num_encoder_layers=1)
+    p = MatNetPolicy(env_name="atsp", **SM)
     if det:
-        p.encoder.init_embedding = DetOneHot(16)
+        p.encoder.init_embedding = DetOneHot()
     return p
 
 
-def _genv(name, **gp):
-    return lambda n: get_env(name, generator_params=dict({"num_loc": n}, **gp))
+def _env(name, key="num_loc", f=lambda n: n, **gp):
+    return lambda n: get_env(name, **({"check_solution": False} if name == "sdvrp" else {}), generator_params=dict({key: f(n)}, **gp))
 
 
 def _am(env, cls=AttentionModelPolicy, **kw):
     return lambda: cls(env_name=env, feedforward_hidden=16, **dict(SM, **kw))
 
 
+def _l2d(cls, env):
+    return lambda: cls(env_name=env, embed_dim=16, num_encoder_layers=1)
+
+
+_even, _jobs = (lambda n: n + n % 2), (lambda n: (n + 1) // 2)
 # id, policy factory, env factory(n), kind, multistart ("env" = env.select_start_nodes, "own" = own feasible starts, None), beam
 ZOO = [
-    ("am.tsp", _am("tsp"), _genv("tsp"), "ar", "env", True),
-    ("am.cvrp", _am("cvrp"), _genv("cvrp"), "ar", "env", True),
-    ("pomo.cvrp", _am("cvrp", use_graph_context=False, normalization="instance"), _genv("cvrp"), "ar", "env", True),
-    ("am.sdvrp", _am("sdvrp"), lambda n: get_env("sdvrp", check_solution=False, generator_params=dict(num_loc=n)), "ar", "env", True),
-    ("am.cvrptw", _am("cvrptw"), _genv("cvrptw"), "ar", "own", True),
-    ("am.op", _am("op"), _genv("op"), "ar", "own", True),
-    ("am.pctsp", _am("pctsp"), _genv("pctsp"), "ar", "env", True),
-    ("am.spctsp", _am("spctsp"), _genv("spctsp"), "ar", "env", False),
-    ("am.pdp", _am("pdp"), lambda n: get_env("pdp", generator_params=dict(num_loc=n + n % 2)), "ar", "env", True),
-    ("ham.pdp", _am("pdp", cls=HeterogeneousAttentionModelPolicy), lambda n: get_env("pdp", generator_params=dict(num_loc=n + n % 2)), "ar", "env", False),
-    ("am.mtsp", _am("mtsp"), _genv("mtsp", min_num_agents=2, max_num_agents=2), "ar", "own", False),
-    ("am.svrp", _am("svrp"), _genv("svrp"), "ar", None, False),
-    ("am.smtwtp", _am("smtwtp"), lambda n: get_env("smtwtp", generator_params=dict(num_job=n)), "ar", "own", False),
-    ("am.mdcpdp", _am("mdcpdp"), lambda n: get_env("mdcpdp", generator_params=dict(num_loc=n + n % 2, num_depot=3)), "ar", None, False),
-    ("symnco.tsp", _am("tsp", cls=SymNCOPolicy), _genv("tsp"), "ar", "env", False),
-    ("matnet.atsp", _matnet, _genv("atsp"), "ar", "env", True),
-    ("polynet.tsp", lambda: PolyNetPolicy(k=3, env_name="tsp", feedforward_hidden=16, **SM), _genv("tsp"), "poly", None, False),
-    ("polynet.cvrp", lambda: PolyNetPolicy(k=3, env_name="cvrp", feedforward_hidden=16, **SM), _genv("cvrp"), "poly", None, False),
-    ("l2d.jssp", lambda: L2DPolicy(env_name="jssp", embed_dim=16, num_encoder_layers=1), lambda n: get_env("jssp", generator_params=dict(num_jobs=3, num_machines=2)), "ar", None, False),
-    ("l2d.fjsp", lambda: L2DPolicy(env_name="fjsp", embed_dim=16, num_encoder_layers=1), lambda n: get_env("fjsp", generator_params=dict(num_jobs=3, num_machines=2)), "ar", None, False),
-    ("l2dppo.jssp", lambda: L2DPolicy4PPO(env_name="jssp", embed_dim=16, num_encoder_layers=1), lambda n: get_env("jssp", generator_params=dict(num_jobs=3, num_machines=2)), "ar", None, False),
-    ("ptrnet.tsp", lambda: PointerNetworkPolicy(embed_dim=16, hidden_dim=16), _genv("tsp"), "ptr", None, False),
-    ("mdam.tsp", lambda: MDAMPolicy(env_name="tsp", num_paths=2, **SM), _genv("tsp"), "mdam", None, False),
-    ("mdam.cvrp", lambda: MDAMPolicy(env_name="cvrp", num_paths=2, **SM), _genv("cvrp"), "mdam", None, False),
+    ("am.tsp", _am("tsp"), _env("tsp"), "ar", "env", True),
+    ("am.cvrp", _am("cvrp"), _env("cvrp"), "ar", "env", True),
+    ("pomo.cvrp", _am("cvrp", use_graph_context=False, normalization="instance"), _env("cvrp"), "ar", "env", True),
+    ("am.sdvrp", _am("sdvrp"), _env("sdvrp"), "ar", "env", True),
+    ("am.cvrptw", _am("cvrptw"), _env("cvrptw"), "ar", "own", True),
+    ("am.op", _am("op"), _env("op"), "ar", "own", True),
+    ("am.pctsp", _am("pctsp"), _env("pctsp"), "ar", "env", True),
+    ("am.spctsp", _am("spctsp"), _env("spctsp"), "ar", "env", False),
+    ("am.pdp", _am("pdp"), _env("pdp", f=_even), "ar", "env", True),
+    ("ham.pdp", _am("pdp", cls=HeterogeneousAttentionModelPolicy), _env("pdp", f=_even), "ar", "env", False),
+    ("am.mtsp", _am("mtsp"), _env("mtsp", min_num_agents=2, max_num_agents=2), "ar", "own", False),
+    ("am.svrp", _am("svrp"), _env("svrp"), "ar", None, False),
+    ("am.smtwtp", _am("smtwtp"), _env("smtwtp", key="num_job"), "ar", "own", False),
+    ("am.mdcpdp", _am("mdcpdp"), _env("mdcpdp", f=_even, num_depot=3), "ar", None, False),
+    ("symnco.tsp", _am("tsp", cls=SymNCOPolicy), _env("tsp"), "ar", "env", False),
+    ("matnet.atsp", _matnet, _env("atsp"), "ar", "env", True),
+    ("polynet.tsp", lambda: PolyNetPolicy(k=3, env_name="tsp", feedforward_hidden=16, **SM), _env("tsp"), "poly", None, False),
+    ("polynet.cvrp", lambda: PolyNetPolicy(k=3, env_name="cvrp", feedforward_hidden=16, **SM), _env("cvrp"), "poly", None, False),
+    ("l2d.jssp", _l2d(L2DPolicy, "jssp"), _env("jssp", key="num_jobs", f=_jobs, num_machines=2), "ar", None, False),
+    ("l2d.fjsp", _l2d(L2DPolicy, "fjsp"), _env("fjsp", key="num_jobs", f=_jobs, num_machines=2), "ar", None, False),
+    ("l2dppo.jssp", _l2d(L2DPolicy4PPO, "jssp"), _env("jssp", key="num_jobs", f=_jobs, num_machines=2), "ar", None, False),
+    ("ptrnet.tsp", lambda: PointerNetworkPolicy(embed_dim=16, hidden_dim=16), _env("tsp"), "ptr", None, False),
+    ("mdam.tsp", lambda: MDAMPolicy(env_name="tsp", num_paths=2, **SM), _env("tsp"), "mdam", None, False),
+    ("mdam.cvrp", lambda: MDAMPolicy(env_name="cvrp", num_paths=2, **SM), _env("cvrp"), "mdam", None, False),
 ]
 BOUND = (
-    f"tier={A.tier}: {len(ZOO)} policy/env pairs {[z[0] for z in ZOO]} with random weights (embed 16, 1 layer, eval mode); "
-    f"instance sizes num_loc in {SIZES} (jssp/fjsp 3 jobs x 2 machines), generator seeds {SEEDS}, batch {B}; C11: decode types "
-    f"greedy/sampling/multistart_greedy/multistart_sampling (multisample K=3 for PolyNet), temperature in {{1.0, 0.6}}, top_k in {{0, 3}} "
-    f"(sampling), store_all_logp on/off; C13: beam widths {'{2, N}' if QUICK else '2..N'} x select_best on/off on the beam-enabled pairs; "
-    f"C14: solo / reversed / sub-sampled / duplicated batches vs the full batch, greedy (+ multistart_greedy, multisample greedy)."
+    f"tier={A.tier}: {len(ZOO)} policy/env pairs {[z[0] for z in ZOO]}, random weights (embed 16, 2 heads, 1 layer, eval mode; MatNet with a "
+    f"deterministic one-hot init embedding, plus one run of its default random init); instance sizes n in {SIZES} (num_loc=n, pdp/mdcpdp "
+    f"rounded up to even, mdcpdp 3 depots, mtsp 2 agents, smtwtp n jobs, jssp/fjsp (n+1)//2 jobs x 2 machines), generator seeds {SEEDS}, "
+    f"batch {B}. C11: greedy, sampling, sampling@temperature 0.6, sampling@top_k 3, multistart_greedy, multistart_sampling@0.6 with 3 "
+    f"starts (PolyNet: num_samples=3 greedy/sampling and num_starts=3+multisample), each with store_all_logp off and on, plus the "
+    f"evaluate pass. C13: beam widths {'{2, N-1}' if QUICK else '2..N'} (N = number of actions) x select_best on/off on the 9 beam-enabled pairs. "
+    f"C14: solo x{B}, reversed, sub-sampled [last, first], duplicated [1,0,1,1] batches vs the full batch; greedy, and multistart_greedy / "
+    f"multisample greedy where supported. get_log_likelihood mask unit test: {len(SEEDS)} random tensors."
 )
-rep = _lib.Report(bound=BOUND, rule="case = (clause family, policy.env, size, seed, decode config[, batch composition]); distinct by that key", max_violations=40)
+rep = _lib.Report(bound=BOUND, rule="case = (clause family, policy.env, size, seed, decode config[, beam width | batch composition]); distinct by that key", max_violations=40)
 
 
 def fail(name, what, inp=None):
@@ -152,12 +155,26 @@ def close(a, b, tol=TOL):
 
 
 def small(td, acts=None, **extra):
-    keys = [k for k in ("locs", "cost_matrix", "demand", "prize", "penalty", "time_windows", "durations") if k in td.keys()]
-    d = {k: td[k] for k in keys}
+    keys = ("locs", "cost_matrix", "demand", "prize", "penalty", "time_windows", "durations", "proc_times", "job_due_time", "job_weight", "job_process_time", "depot")
+    d = {k: td[k] for k in keys if k in td.keys()}
     if acts is not None:
         d["actions"] = acts
-    d.update(extra)
-    return d
+    return dict(d, **extra)
+
+
+def call(pol, td, env, seed=None, **kw):
+    if seed is not None:
+        torch.manual_seed(seed)
+    with torch.no_grad():  # max_steps bounds the library's decoding loop so a broken policy cannot hang the check
+        return pol(td.clone(), env, phase="test", max_steps=200, **kw)
+
+
+def tcall(name, inp, *a, **kw):
+    """call(); an exception raised by the library on this valid input is a failure of clause `name`."""
+    try:
+        return call(*a, **kw)
+    except Exception as e:
+        fail(name, f"library raised {type(e).__name__}: {str(e)[:200]} ({ {k: v for k, v in kw.items() if not callable(v) and not torch.is_tensor(v)} })", inp)
 
 
 # ----------------------------------------------------------------------------------------------- oracle
@@ -195,11 +212,10 @@ def replay(pol, env, td, actions, forced=False, dec_starts=0, temp=1.0, top_k=0)
             td = expand(td, dec_starts)
         td, _, hidden = pol.decoder.pre_decoder_hook(td, env, hidden, dec_starts)
         R, T = actions.shape
-        lp, ent, gap, feas, am = torch.zeros(R, T).double(), torch.zeros(R, T).double(), torch.full((R, T), 9.0).double(), torch.ones(R, dtype=torch.bool), torch.zeros(R, T, dtype=torch.long)
-        r.done_before_last = False
+        lp, ent, gap = torch.zeros(R, T).double(), torch.zeros(R, T).double(), torch.full((R, T), 9.0).double()
+        feas, am, r.superfluous = torch.ones(R, dtype=torch.bool), torch.zeros(R, T, dtype=torch.long), False
         for t in range(T):
-            if t == T - 1 and bool(td["done"].all()):
-                r.done_before_last = True
+            r.superfluous |= t == T - 1 and bool(td["done"].all())
             a, mask = actions[:, t], td["action_mask"].clone()
             feas &= mask.gather(1, a[:, None]).squeeze(1)
             if not (forced and t == 0):
@@ -214,22 +230,23 @@ def replay(pol, env, td, actions, forced=False, dec_starts=0, temp=1.0, top_k=0)
             td.set("action", a)
             td = env.step(td)["next"]
         r.lp, r.ent, r.gap, r.feasible, r.argmax, r.done = lp.float(), ent.float(), gap, feas, am, td["done"].reshape(R).clone()
-        r.reward = env.get_reward(td, actions) if bool(r.done.all() and feas.all()) else None
+        r.valid = bool(r.done.all() and feas.all())  # feasible and complete; ok additionally: no step after all rows were done
+        r.ok, r.reward = r.valid and not r.superfluous, env.get_reward(td, actions) if r.valid else None
     return r
 
 
 def ptr_replay(pol, td, actions):
+    """Own unrolling of the pointer network's LSTM/glimpse/pointer step with own visited-mask and log-softmax."""
     with torch.no_grad():
         locs = td["locs"]
         n, g, _ = locs.shape
         emb = torch.mm(locs.transpose(0, 1).contiguous().view(-1, 2), pol.embedding).view(g, n, -1)
         z = torch.zeros(1, n, emb.size(-1))
         enc_h, (h, c) = pol.encoder(emb, (z, z))
-        hid, x, mask = (h[-1], c[-1]), pol.decoder_in_0[None].repeat(n, 1), torch.ones(n, g, dtype=torch.bool)
-        lp = torch.zeros(n, g)
+        hid, x, mask, lp = (h[-1], c[-1]), pol.decoder_in_0[None].repeat(n, 1), torch.ones(n, g, dtype=torch.bool), torch.zeros(n, g)
         for t in range(g):
             logits, hid = pol.decoder.calc_logits(x, hid, mask, enc_h, mask_logits=False)
-            l = (logits.double().masked_fill(~mask, float("-inf"))).log_softmax(-1)
+            l = logits.double().masked_fill(~mask, float("-inf")).log_softmax(-1)
             a = actions[:, t]
             lp[:, t] = l.gather(1, a[:, None]).squeeze(1).float()
             mask = mask.clone()
@@ -239,17 +256,15 @@ def ptr_replay(pol, td, actions):
 
 
 def mdam_replay(pol, env, td, actions):
-    """Normalised log-prob (and raw masked logit) of the returned actions under the LAST decoder path (the only path whose
+    """Normalised log-prob and raw masked logit of the returned actions under the LAST decoder path (the only path whose
     actions MDAM returns)."""
     with torch.no_grad():
-        enc, _, attn, V, h_old = pol.encoder(pol.init_embedding(td))
+        enc = pol.encoder(pol.init_embedding(td))[0]
         p = pol.decoder.num_paths - 1
-        fixed = pol.decoder._precompute(enc, path_index=p)
-        td = td.clone()
+        fixed, td = pol.decoder._precompute(enc, path_index=p), td.clone()
         lp, raw = torch.zeros(actions.shape), torch.zeros(actions.shape)
         for t in range(actions.size(1)):
-            logits, _ = pol.decoder._get_logprobs(fixed, td, p)
-            x = logits[:, 0].double().masked_fill(~td["action_mask"], float("-inf"))
+            x = pol.decoder._get_logprobs(fixed, td, p)[0][:, 0].double().masked_fill(~td["action_mask"], float("-inf"))
             raw[:, t] = x.gather(1, actions[:, t, None]).squeeze(1).float()
             lp[:, t] = x.log_softmax(-1).gather(1, actions[:, t, None]).squeeze(1).float()
             td.set("action", actions[:, t])
@@ -268,11 +283,9 @@ def own_starts(td, env, s):
     return torch.tensor(out)
 
 
-def call(pol, td, env, seed=None, **kw):
-    if seed is not None:
-        torch.manual_seed(seed)
-    with torch.no_grad():
-        return pol(td.clone(), env, phase="test", **kw)
+def ms_kwargs(td, ms):
+    S = min(3, int(td["action_mask"].shape[-1]) - 1)
+    return S, dict(num_starts=S, **({"select_start_nodes_fn": own_starts} if ms == "own" else {}))
 
 
 # ----------------------------------------------------------------------------------------------- C11
@@ -284,60 +297,51 @@ def c11_ar(pid, pol, env, td, ms, key, poly=0):
         cfgs = [("greedy", dict(num_samples=poly)), ("sampling", dict(num_samples=poly)), ("sampling", dict(num_starts=poly, multisample=True))]
     n = td.batch_size[0]
     for dt, kw in cfgs:
-        ck = key + (dt, tuple(sorted(kw.items())))
-        rep.case(("C11",) + ck)
+        rep.case(("C11",) + key + (dt, tuple(sorted(kw.items()))))
         info = dict(decode_type=dt, **kw)
         mkw, S, forced = dict(kw), max(poly, 1), "num_starts" in kw
         if "multistart" in dt:
-            S = min(3, int(td["action_mask"].shape[-1]) - 1)
-            mkw.update(num_starts=S, **({"select_start_nodes_fn": own_starts} if ms == "own" else {}))
-            forced = True
+            (S, extra), forced = ms_kwargs(td, ms), True
+            mkw.update(extra)
         fam = "multistart" if forced else ("multisample" if poly else "single")
-        try:
-            o1 = call(pol, td, env, seed=A.seed + 7, decode_type=dt, **mkw)
-            o2 = call(pol, td, env, seed=A.seed + 7, decode_type=dt, return_entropy=True, return_sum_log_likelihood=False, **mkw)
-        except Exception as e:
-            fail(f"C11.{pid}.gen.raises.{fam}", f"policy raised on a valid instance with {info}: {type(e).__name__}: {e}", small(td, **info))
-            continue
-        flat = expand(td, S)
-        for tag, o in (("sum", o1), ("all-logp", o2)):
+        flat = td if poly else expand(td, S)
+        for tag, okw in (("sum", {}), ("all-logp", dict(return_entropy=True, return_sum_log_likelihood=False))):
+            o = tcall(f"C11.{pid}.gen.raises.{fam}", small(td, **info), pol, td, env, seed=A.seed + 7, decode_type=dt, **okw, **mkw)
+            if o is None:
+                break
             acts = o["actions"]
-            if acts.shape[0] != n * S:
-                fail(f"C11.{pid}.gen.shape", f"actions rows {acts.shape[0]} != batch*starts {n * S} ({info})", small(td, **info))
-                continue
-            rp = replay(pol, env, td if poly else flat, acts, forced=forced, dec_starts=poly, temp=kw.get("temperature", 1.0), top_k=kw.get("top_k", 0))
             inp = small(td, acts, **info)
-            if not (rp.feasible.all() and rp.done.all()) or rp.done_before_last:
+            if acts.shape[0] != n * S:
+                fail(f"C11.{pid}.gen.shape", f"actions rows {acts.shape[0]} != batch*starts {n * S} ({info})", inp)
+                continue
+            rp = replay(pol, env, flat, acts, forced=forced, dec_starts=poly, temp=kw.get("temperature", 1.0), top_k=kw.get("top_k", 0))
+            if not rp.ok:
                 fail(f"C11.{pid}.gen.feasible-complete", f"infeasible action / not done / superfluous step ({info}, {tag})", inp)
                 continue
             ll = o["log_likelihood"]
-            ok = close(ll, rp.lp.sum(1)) if tag == "sum" else close(ll, rp.lp)
-            if not ok:
+            if not close(ll, rp.lp.sum(1) if tag == "sum" else rp.lp):
                 d = (ll.reshape(len(ll), -1).sum(1) - rp.lp.sum(1)).abs().max().item()
-                fail(f"C11.{pid}.gen.ll-equals-step-logp", f"returned log_likelihood differs from sum of step log-probs by {d:.4g} ({info}, {tag})", inp)
+                fail(f"C11.{pid}.gen.ll-equals-step-logp", f"returned log_likelihood differs from the sum of step log-probs by {d:.4g} ({info}, {tag})", inp)
             if "greedy" in dt:
                 bad = (acts != rp.argmax) & (rp.gap > TIE)
                 bad[:, 0] &= not forced
                 if bad.any():
                     fail(f"C11.{pid}.gen.greedy-is-argmax", f"greedy action is not the most probable feasible action ({info})", inp)
-            if tag == "all-logp" and not close(o["entropy"], rp.ent.sum(1)):
-                fail(f"C11.{pid}.gen.entropy", f"entropy {o['entropy'].tolist()} != oracle {rp.ent.sum(1).tolist()} ({info})", inp)
-            if rp.reward is not None and not close(o["reward"], rp.reward):
-                fail(f"C11.{pid}.gen.reward", f"returned reward differs from reward of returned actions ({info})", inp)
+            if not close(o["reward"], rp.reward):
+                fail(f"C11.{pid}.gen.reward", f"returned reward differs from the reward of the returned actions ({info})", inp)
             if tag == "sum":
                 continue
+            if not close(o["entropy"], rp.ent.sum(1)):
+                fail(f"C11.{pid}.gen.entropy", f"entropy {o['entropy'].tolist()} != oracle {rp.ent.sum(1).tolist()} ({info})", inp)
             # evaluate round trip on the returned actions
-            ekw = dict(num_samples=poly) if poly else dict(kw)
-            try:
-                ev = call(pol, td if poly else flat, env, actions=acts, return_entropy=True, return_sum_log_likelihood=False, **ekw)
-            except Exception as e:
-                fail(f"C11.{pid}.eval.raises", f"evaluate pass raised: {type(e).__name__}: {e} ({info})", inp)
+            ev = tcall(f"C11.{pid}.eval.raises", inp, pol, flat, env, actions=acts, return_entropy=True, return_sum_log_likelihood=False, **(dict(num_samples=poly) if poly else kw))
+            if ev is None:
                 continue
             el, s0 = ev["log_likelihood"], 1 if forced else 0
             if el.shape != rp.lp.shape or not close(el[:, s0:], rp.lp[:, s0:]):
                 fail(f"C11.{pid}.eval.steps", f"evaluate per-step log-probs differ from those of generation ({info})", inp)
             elif forced and not close(el[:, 0], rp.lp[:, 0]):
-                fail("C11.multistart.eval.first-move-forced", f"{pid}: forced first move has logp 0 at generation but {el[:, 0].tolist()} on re-evaluation, log_likelihood differs ({info})", inp)
+                fail("C11.multistart.eval.first-move-forced", f"{pid}: forced first move has logp 0 at generation but {el[:, 0].tolist()} on re-evaluation, so log_likelihood differs ({info})", inp)
             if not close(ev["reward"], o["reward"]):
                 fail(f"C11.{pid}.eval.reward", f"evaluate reward differs ({info})", inp)
             if not forced and not close(ev["entropy"], o["entropy"]):
@@ -347,7 +351,9 @@ def c11_ar(pid, pol, env, td, ms, key, poly=0):
 def c11_ptr(pid, pol, env, td, key):
     for dt in ("greedy", "sampling"):
         rep.case(("C11",) + key + (dt,))
-        o = call(pol, td, env, seed=A.seed + 7, decode_type=dt)
+        o = tcall(f"C11.{pid}.gen.raises", small(td, decode_type=dt), pol, td, env, seed=A.seed + 7, decode_type=dt)
+        if o is None:
+            continue
         acts, inp = o["actions"], small(td, o["actions"], decode_type=dt)
         if not all(sorted(a.tolist()) == list(range(acts.size(1))) for a in acts):
             fail(f"C11.{pid}.gen.feasible-complete", "tour is not a permutation", inp)
@@ -355,18 +361,23 @@ def c11_ptr(pid, pol, env, td, key):
         lp = ptr_replay(pol, td, acts)
         if not close(o["log_likelihood"], lp.sum(1)):
             fail(f"C11.{pid}.gen.ll-equals-step-logp", f"log_likelihood {o['log_likelihood'].tolist()} != oracle {lp.sum(1).tolist()}", inp)
-        ev = call(pol, td, env, decode_type=dt, eval_tours=acts)
-        if not (ev["actions"] == acts).all() or not close(ev["log_likelihood"], lp.sum(1)) or not close(ev["reward"], o["reward"]):
+        if dt == "greedy":  # greedy = argmax: no other first/second move may have a higher oracle log-prob than the chosen one
+            alt = torch.stack([ptr_replay(pol, td, torch.roll(acts, -k, 1))[:, 0] for k in range(1, acts.size(1))], 1).max(1).values
+            if (alt > lp[:, 0] + TIE).any():
+                fail(f"C11.{pid}.gen.greedy-is-argmax", "greedy first move is not the most probable one", inp)
+        ev = tcall(f"C11.{pid}.eval.raises", inp, pol, td, env, decode_type=dt, eval_tours=acts)
+        if ev is not None and not ((ev["actions"] == acts).all() and close(ev["log_likelihood"], lp.sum(1)) and close(ev["reward"], o["reward"])):
             fail(f"C11.{pid}.eval.steps", "eval_tours pass does not reproduce actions / log_likelihood / reward", inp)
 
 
 def c11_mdam(pid, pol, env, td, key):
     for dt in ("greedy", "sampling"):
         rep.case(("C11",) + key + (dt,))
-        o = call(pol, td, env, seed=A.seed + 7, decode_type=dt)
-        acts, inp = o["actions"], small(td, o["actions"], decode_type=dt)
+        o = tcall(f"C11.{pid}.gen.raises", small(td, decode_type=dt), pol, td, env, seed=A.seed + 7, decode_type=dt)
+        if o is None:
+            continue
+        acts, inp, ll = o["actions"], small(td, o["actions"], decode_type=dt), o["log_likelihood"][:, -1]
         lp, raw, done = mdam_replay(pol, env, td, acts)
-        ll = o["log_likelihood"][:, -1]
         if not done.all():
             fail(f"C11.{pid}.gen.feasible-complete", "returned actions do not complete the episode", inp)
         elif not close(ll, lp.sum(1)):
@@ -374,22 +385,21 @@ def c11_mdam(pid, pol, env, td, key):
             fail(f"C11.{pid}.gen.{nm}", f"log_likelihood (last path) {ll.tolist()} != sum of normalised step log-probs {lp.sum(1).tolist()}", inp)
 
 
-def c11_mask_unit(key):
-    rep.case(("C11", "get_log_likelihood.mask") + key)
-    g = torch.Generator().manual_seed(A.seed + key[-1])
+def c11_mask_unit(s):
+    rep.case(("C11", "get_log_likelihood.mask", s))
+    g = torch.Generator().manual_seed(A.seed + s)
     lp = -torch.rand(4, 6, 5, generator=g) - 0.1
     acts, m = torch.randint(0, 5, (4, 6), generator=g), torch.rand(4, 6, generator=g) > 0.4
-    want = (lp.gather(-1, acts[..., None]).squeeze(-1) * m).sum(1)
-    for a, l in ((acts, lp.clone()), (None, lp.gather(-1, acts[..., None]).squeeze(-1))):
-        if not close(get_log_likelihood(l, a, m, True), want):
+    sel = lp.gather(-1, acts[..., None]).squeeze(-1)
+    for a, l in ((acts, lp.clone()), (None, sel.clone())):
+        if not close(get_log_likelihood(l, a, m, True), (sel * m).sum(1)):
             fail("C11.get_log_likelihood.mask", "masked (irrelevant) steps do not contribute exactly zero", dict(logprobs=lp, actions=acts, mask=m))
     env, pol = get_env("tsp", generator_params=dict(num_loc=5)), _am("tsp")().eval()
     td = env.reset(batch_size=[3])
     td["mask"] = m[:3, :5].clone()
     o = call(pol, td, env, decode_type="greedy")
-    rp = replay(pol, env, td, o["actions"])
-    if not close(o["log_likelihood"], (rp.lp * m[:3, :5]).sum(1)):
-        fail("C11.am.tsp.gen.td-mask-zeroes-steps", "td['mask'] steps not zeroed in log_likelihood", small(td, o["actions"], mask=m[:3, :5]))
+    if not close(o["log_likelihood"], (replay(pol, env, td, o["actions"]).lp * m[:3, :5]).sum(1)):
+        fail("C11.am.tsp.gen.td-mask-zeroes-steps", "steps flagged irrelevant by td['mask'] are not zeroed in log_likelihood", small(td, o["actions"], mask=m[:3, :5]))
 
 
 # ----------------------------------------------------------------------------------------------- C13
@@ -404,150 +414,139 @@ def own_beam(pol, env, td, first, W):
         cur.set("action", a0)
         cur = env.step(cur)["next"]
         hist, score, tie = a0[:, None], torch.zeros(n * W).double(), torch.zeros(n, dtype=torch.bool)
-        while not cur["done"].all():
-            logits, _ = pol.decoder(cur, hidden, 0)
-            l = step_logp(pol, logits, cur["action_mask"])
+        while not cur["done"].all() and hist.size(1) < 200:
+            l = step_logp(pol, pol.decoder(cur, hidden, 0)[0], cur["action_mask"])
             N = l.size(-1)
-            cand = (score[:, None] + l).view(n, W * N)
-            top = cand.topk(W + 1, 1)
-            tie |= (top.values[:, W - 1] - top.values[:, W]) < TIE
+            top = (score[:, None] + l).view(n, W * N).topk(W + 1, 1)
+            tie |= ~((top.values[:, W - 1] - top.values[:, W]) >= TIE)
             idx = top.indices[:, :W]
-            src = (torch.arange(n)[:, None] * W + idx // N).reshape(-1)
-            node = (idx % N).reshape(-1)
+            src, node = (torch.arange(n)[:, None] * W + idx // N).reshape(-1), (idx % N).reshape(-1)
             cur, hist, score = cur[src], torch.cat([hist[src], node[:, None]], 1), top.values[:, :W].reshape(-1)
             cur.set("action", node)
             cur = env.step(cur)["next"]
-    return hist.view(n, W, -1), score.view(n, W), tie
+    return hist.view(n, W, -1), tie
 
 
 def c13(pid, pol, env, td, ms, key):
     n, N = td.batch_size[0], int(td["action_mask"].shape[-1])
-    widths = sorted({2, N - 1}) if QUICK else list(range(2, N + 1))
-    for W in widths:
+    for W in sorted({2, N - 1}) if QUICK else range(2, N + 1):
         rep.case(("C13",) + key + (W,))
-        rec = {}
-        base = own_starts if ms == "own" else (lambda t, e, k: e.select_start_nodes(t, num_starts=k))
+        rec, base = {}, own_starts if ms == "own" else (lambda t, e, k: e.select_start_nodes(t, num_starts=k))
 
         def fn(t, e, k):
             rec["a"] = base(t, e, k).clone()
             return rec["a"]
 
         info = dict(decode_type="beam_search", beam_width=W)
-        try:
-            oa = call(pol, td, env, decode_type="beam_search", beam_width=W, select_best=False, select_start_nodes_fn=fn, return_sum_log_likelihood=False)
-            ob = call(pol, td, env, decode_type="beam_search", beam_width=W, select_best=True, select_start_nodes_fn=fn)
-        except Exception as e:
-            fail(f"C13.{pid}.beam.raises", f"beam search raised on a valid instance: {type(e).__name__}: {e} ({info})", small(td, **info))
+        bkw = dict(decode_type="beam_search", beam_width=W, select_start_nodes_fn=fn)
+        oa = tcall(f"C13.{pid}.beam.raises", small(td, **info), pol, td, env, select_best=False, return_sum_log_likelihood=False, **bkw)
+        ob = tcall(f"C13.{pid}.beam.raises", small(td, **info), pol, td, env, select_best=True, **bkw)
+        if oa is None or ob is None:
             continue
-        acts, first = oa["actions"], rec["a"]
+        acts, first, flat = oa["actions"], rec["a"], expand(td, W)
         inp = small(td, acts, first_moves=first, **info)
-        flat = expand(td, W)
-        rp = replay(pol, env, flat, acts, forced=True)
-        if acts.shape[0] != n * W or not (rp.feasible.all() and rp.done.all()) or rp.done_before_last:
-            fail(f"C13.{pid}.beam.feasible-complete", f"a returned beam is infeasible / incomplete ({info})", inp)
+        rp = replay(pol, env, flat, acts, forced=True) if acts.shape[0] == n * W else None
+        if rp is None or not rp.ok:
+            fail(f"C13.{pid}.beam.feasible-complete", f"a returned beam is infeasible / incomplete / missing ({info})", inp)
             continue
         if not close(oa["log_likelihood"], rp.lp):
             fail(f"C13.{pid}.beam.ll-equals-sequence-logp", f"beam per-step log-probs are not those of the returned sequence, max diff {(oa['log_likelihood'] - rp.lp).abs().max():.4g} ({info})", inp)
         if not close(oa["reward"], rp.reward):
             fail(f"C13.{pid}.beam.reward", f"beam rewards are not those of the returned sequences ({info})", inp)
         seqs = acts.view(W, n, -1).transpose(0, 1)  # [n, W, T]
-        hist, score, tie = own_beam(pol, env, td, first, W)
+        sets = [{tuple(s.tolist()) for s in seqs[b]} for b in range(n)]
+        hist, tie = own_beam(pol, env, td, first, W)
         for b in range(n):
-            mine = {tuple(s.tolist()) for s in seqs[b]}
-            if len(set(first.view(W, n)[:, b].tolist())) == W and len(mine) < W:
-                fail(f"C13.{pid}.beam.distinct", f"instance {b}: beams not pairwise distinct although first moves are ({info})", inp)
-            if not tie[b] and mine != {tuple(s.tolist()) for s in hist[b]}:
-                fail(f"C13.{pid}.beam.topk-matches-oracle", f"instance {b}: kept beams {sorted(mine)} != oracle beam search {hist[b].tolist()} ({info})", inp)
+            if len(set(first.view(W, n)[:, b].tolist())) == W and len(sets[b]) < W:
+                fail(f"C13.{pid}.beam.distinct", f"instance {b}: beams not pairwise distinct although their first moves are ({info})", inp)
+            if not tie[b] and sets[b] != {tuple(s.tolist()) for s in hist[b]}:
+                fail(f"C13.{pid}.beam.topk-matches-oracle", f"instance {b}: kept beams {sorted(sets[b])} != own beam search {hist[b].tolist()} ({info})", inp)
         best = rp.reward.view(W, n).max(0).values
         rb = replay(pol, env, td, ob["actions"], forced=True)
-        ok = close(ob["reward"], best) and rb.reward is not None and close(rb.reward, best) and close(ob["log_likelihood"], rb.lp.sum(1))
-        ok = ok and all(tuple(ob["actions"][b].tolist()) in {tuple(s.tolist()) for s in seqs[b]} for b in range(n))
-        if not ok:
-            fail(f"C13.{pid}.beam.select-best-is-max", f"select_best result {ob['reward'].tolist()} is not the best beam {best.tolist()} (or its actions/ll are not that beam's) ({info})", inp)
-        try:
-            ev = call(pol, flat, env, actions=acts, return_sum_log_likelihood=False)
-            if not close(ev["log_likelihood"][:, 1:], rp.lp[:, 1:]) or not close(ev["reward"], oa["reward"]):
-                fail(f"C13.{pid}.beam.eval.steps", f"evaluate pass of the beams differs after the first move ({info})", inp)
-            elif not close(ev["log_likelihood"][:, 0], rp.lp[:, 0]):
-                fail("C13.beam.eval.first-move-forced", f"{pid}: forced first move logp 0 in beam search but {ev['log_likelihood'][:, 0].tolist()} on re-evaluation ({info})", inp)
-        except Exception as e:
-            fail(f"C13.{pid}.beam.eval.raises", f"evaluate pass raised {type(e).__name__}: {e}", inp)
+        ok = rb.valid and close(ob["reward"], best) and close(rb.reward, best) and close(ob["log_likelihood"], rb.lp.sum(1))
+        if not (ok and all(tuple(ob["actions"][b].tolist()) in sets[b] for b in range(n))):
+            fail(f"C13.{pid}.beam.select-best-is-max", f"select_best result {ob['reward'].tolist()} is not the best beam {best.tolist()} (or its actions / log-likelihood are not that beam's) ({info})", inp)
+        ev = tcall(f"C13.{pid}.beam.eval.raises", inp, pol, flat, env, actions=acts, return_sum_log_likelihood=False)
+        if ev is None:
+            continue
+        if ev["log_likelihood"].shape != rp.lp.shape or not close(ev["log_likelihood"][:, 1:], rp.lp[:, 1:]) or not close(ev["reward"], oa["reward"]):
+            fail(f"C13.{pid}.beam.eval.steps", f"evaluate pass of the beams differs after the first move ({info})", inp)
+        elif not close(ev["log_likelihood"][:, 0], rp.lp[:, 0]):
+            fail("C13.beam.eval.first-move-forced", f"{pid}: forced first move has logp 0 in beam search but {ev['log_likelihood'][:, 0].tolist()} on re-evaluation ({info})", inp)
 
 
 # ----------------------------------------------------------------------------------------------- C14
-def c14(pid, pol, env, td, kind, ms, key, tag=""):
+def c14(pid, pol, env, td, kind, ms, key):
     n = td.batch_size[0]
     modes = [("greedy", {}, 1)]
     if kind == "poly":
-        modes = [("greedy", dict(num_starts=3, multisample=True), 3)]
-    elif ms and kind == "ar":
-        S = min(3, int(td["action_mask"].shape[-1]) - 1)
-        modes.append(("multistart_greedy", dict(num_starts=S, **({"select_start_nodes_fn": own_starts} if ms == "own" else {})), S))
+        modes = [("greedy", dict(num_samples=3), 3)]
+    elif ms:
+        S, extra = ms_kwargs(td, ms)
+        modes.append(("multistart_greedy", extra, S))
     for dt, kw, S in modes:
-        def run(idx):
-            o = call(pol, td[torch.tensor(idx)], env, decode_type=dt, **kw)
-            k = len(idx)
-            f = lambda x: x.reshape(S, k, *x.shape[1:]).transpose(0, 1) if S > 1 else x[:, None]
-            acts = o["actions"] if kind != "mdam" else o["actions"]
-            return f(acts), f(o["reward"]).reshape(k, -1), f(o["log_likelihood"]).reshape(k, -1)
+        def run(idx, name):
+            k, sub = len(idx), td[torch.tensor(idx)]
+            o = tcall(name, small(sub, decode_type=dt, batch_rows=idx), pol, sub, env, decode_type=dt, **kw)
+            f = lambda x: x.reshape(S, k, *x.shape[1:]).transpose(0, 1) if S > 1 else x[:, None]  # noqa: E731
+            return o and (f(o["actions"]), f(o["reward"]).reshape(k, -1), f(o["log_likelihood"]).reshape(k, -1))
 
-        try:
-            full = run(list(range(n)))
-        except Exception as e:
-            fail(f"C14.{pid}{tag}.{dt}.raises", f"full batch raised {type(e).__name__}: {e}", small(td, decode_type=dt))
+        full = run(list(range(n)), f"C14.{pid}.{dt}.raises")
+        if full is None:
             continue
-        comps = [("solo", [[i] for i in range(n)]), ("reversed", [list(range(n))[::-1]]), ("subsample", [[n - 1, 0]]), ("duplicates", [[1, 0, 1, 1]])]
-        for cname, batches in comps:
-            for idx in batches:
-                rep.case(("C14",) + key + (dt, cname, tuple(idx)))
-                info = dict(decode_type=dt, batch_rows=idx, composition=cname)
-                try:
-                    got = run(idx)
-                except Exception as e:
-                    nm = f"C14.{pid}{tag}.{dt}.raises" + ("-batch-size-1" if len(idx) == 1 else "")
-                    fail(nm, f"policy raised on batch {idx}: {type(e).__name__}: {str(e)[:200]}", small(td[torch.tensor(idx)], **info))
-                    continue
-                for j, i in enumerate(idx):
-                    fa, ga = full[0][i], got[0][j]  # [S, T]
-                    T = min(fa.size(1), ga.size(1))
-                    inp = small(td, None, full_actions=fa, other_actions=ga, **info)
-                    diff = (fa[:, :T] != ga[:, :T]).nonzero()
-                    if len(diff) and kind in ("ar", "poly"):
-                        s, t = diff[0].tolist()
-                        rows = td[torch.tensor([i])]
-                        rp = replay(pol, env, expand(rows, S) if kind == "ar" else rows, fa.reshape(S, -1)[:, : t + 1], forced=(S > 1 and kind == "ar"), dec_starts=S if kind == "poly" else 0)
-                        if rp.gap[s, t] < TIE:
-                            continue
-                    if len(diff):
-                        fail(f"C14.{pid}{tag}.greedy.actions", f"instance {i}: greedy actions depend on batch composition ({info})", inp)
+        comps = [("solo", [i]) for i in range(n)] + [("reversed", list(range(n))[::-1]), ("subsample", [n - 1, 0]), ("duplicates", [1, 0, 1, 1])]
+        for cname, idx in comps:
+            rep.case(("C14",) + key + (dt, cname, tuple(idx)))
+            info = dict(decode_type=dt, batch_rows=idx, composition=cname)
+            got = run(idx, f"C14.{pid}.{dt}.raises" + ("-batch-size-1" if len(idx) == 1 else ""))
+            for j, i in enumerate(idx if got else []):
+                fa, ga = full[0][i], got[0][j]  # [S, T]
+                T = min(fa.size(1), ga.size(1))
+                inp = small(td, None, full_batch_actions=fa, other_actions=ga, **info)
+                diff = (fa[:, :T] != ga[:, :T]).nonzero()
+                if len(diff) and kind in ("ar", "poly"):  # accept only a near-tie of the two best actions at the first differing step
+                    s, t = diff[0].tolist()
+                    rows, ar = td[torch.tensor([i])], kind == "ar"
+                    rp = replay(pol, env, expand(rows, S) if ar else rows, fa[:, : t + 1], forced=S > 1 and ar, dec_starts=0 if ar else S)
+                    if rp.gap[s, t] < TIE:
                         continue
-                    if not close(full[1][i], got[1][j]):
-                        fail(f"C14.{pid}{tag}.greedy.reward", f"instance {i}: reward {full[1][i].tolist()} in full batch vs {got[1][j].tolist()} ({info})", inp)
-                    if not close(full[2][i], got[2][j]):
-                        fail(f"C14.{pid}{tag}.greedy.ll", f"instance {i}: log-likelihood {full[2][i].tolist()} in full batch vs {got[2][j].tolist()} ({info})", inp)
+                if len(diff):
+                    fail(f"C14.{pid}.{dt}.actions", f"instance {i}: greedy actions depend on batch composition ({info})", inp)
+                    continue
+                if not close(full[1][i], got[1][j]):
+                    fail(f"C14.{pid}.{dt}.reward", f"instance {i}: reward {full[1][i].tolist()} in the full batch vs {got[1][j].tolist()} ({info})", inp)
+                if not close(full[2][i], got[2][j]):
+                    fail(f"C14.{pid}.{dt}.ll", f"instance {i}: log-likelihood {full[2][i].tolist()} in the full batch vs {got[2][j].tolist()} ({info})", inp)
 
 
 # ----------------------------------------------------------------------------------------------- driver
-def smoke():
-    rep.case(("smoke", "sdvrp-checker"))
+def extras():
+    """Known-defect probes that the grid cannot reach by construction."""
+    rep.case(("extra", "sdvrp-checker"))
     env = get_env("sdvrp", generator_params=dict(num_loc=4))
     g = env.generator(batch_size=[1])
     g["demand"] = torch.full_like(g["demand"], 0.1)
-    try:
-        call(_am("sdvrp")().eval(), env.reset(g), env, actions=torch.tensor([[1, 2, 3, 4]]))
-    except AssertionError as e:
-        fail("C14.am.sdvrp.batch-size-1.checker-rejects-depotless-tour", f"policy(td, env, actions=[[1,2,3,4]]) on one instance (demand 0.1 each, capacity 1) raised: {e}", small(g))
-    for name, mk in (("C14.matnet.ffsp.policy-raises", lambda: (MatNetPolicy(env_name="ffsp", **SM), get_env("ffsp", generator_params=dict(num_job=4, num_machine=2, num_stage=2)))),
-                     ("C14.l2dattn.jssp.policy-raises", lambda: (L2DAttnPolicy(env_name="jssp", **SM), get_env("jssp", generator_params=dict(num_jobs=3, num_machines=2))))):
-        rep.case(("smoke", name))
+    tcall("C14.am.sdvrp.batch-size-1.checker-rejects-depotless-tour", small(g, torch.tensor([[1, 2, 3, 4]])), _am("sdvrp")().eval(), env.reset(g), env, actions=torch.tensor([[1, 2, 3, 4]]))
+    mk = {"C14.matnet.ffsp.policy-raises": lambda: (MatNetPolicy(env_name="ffsp", **SM), get_env("ffsp", generator_params=dict(num_job=4, num_machine=2, num_stage=2))),
+          "C14.l2dattn.jssp.policy-raises": lambda: (L2DAttnPolicy(env_name="jssp", **SM), get_env("jssp", generator_params=dict(num_jobs=3, num_machines=2)))}
+    for name, f in mk.items():
+        rep.case(("extra", name))
         try:
-            pol, env = mk()
+            pol, env = f()
             call(pol.eval(), env.reset(batch_size=[2]), env, decode_type="greedy")
         except Exception as e:
             fail(name, f"bundled policy cannot be built/run on its environment: {type(e).__name__}: {str(e)[:160]}")
+    torch.manual_seed(A.seed)
+    env, pol = get_env("atsp", generator_params=dict(num_loc=5)), _matnet(det=False).eval()
+    c14("matnet.atsp.random-onehot-init", pol, env, env.reset(batch_size=[B]), "mat-random", None, ("matnet.atsp.random-init", 5, 0))
+
+
+def _timeout(*_):
+    raise TimeoutError("cell exceeded 120 s (non-terminating decoding loop or overloaded machine)")
 
 
 def main():
+    signal.signal(signal.SIGALRM, _timeout)
     only = [s for s in A.only.split(",") if s]
     props = [p for p in A.prop.split(",") if p] or ["C11", "C13", "C14"]
     budget, skipped = A.budget or (45 if QUICK else 480), 0
@@ -573,18 +572,17 @@ def main():
                     if "C14" in props:
                         c14(pid, pol, env, td, kind, ms, key)
 
+                signal.alarm(120)  # backstop against a non-terminating library loop (reported as an error by guard)
                 rep.guard(one, f"{pid} n={n} seed={seed}")
+                signal.alarm(0)
     if skipped:
-        rep.bound += f" [wall-clock budget {budget}s hit: {skipped} (pair, size, seed) cells at the end of the grid were skipped]"
+        rep.bound += f" [wall-clock budget {budget}s hit: the last {skipped} (pair, size, seed) cells of the grid were skipped]"
     if not only:
         if "C11" in props:
             for s in SEEDS:
-                rep.guard(lambda: c11_mask_unit((s,)), "mask unit")
+                rep.guard(lambda: c11_mask_unit(s), "mask unit")
         if "C14" in props:
-            rep.guard(smoke, "smoke")
-            torch.manual_seed(A.seed)
-            env, pol = get_env("atsp", generator_params=dict(num_loc=5)), _matnet(det=False).eval()
-            rep.guard(lambda: c14("matnet.atsp", pol, env, env.reset(batch_size=[B]), "ar", None, ("matnet.atsp.random-init", 5, 0), tag=".random-onehot-init"), "matnet random init")
+            rep.guard(extras, "extras")
 
 
 if __name__ == "__main__":
